@@ -214,9 +214,17 @@ void append_frame(const Alphabet &a, const Bytes &payload, Bytes &stream)
     stream.insert(stream.end(), f.begin(), f.end());
 }
 
+// the *_large targets: receiver capacities around 256 and 512 with frames about as long
+static bool g_large = false;
+struct LargeMode
+{
+    LargeMode() { g_large = true; }
+    ~LargeMode() { g_large = false; }
+};
+
 Bytes gen_payload(Src &s, const Alphabet &a, size_t maxn)
 {
-    size_t n = (size_t)s.below(maxn + 1);
+    size_t n = g_large && maxn > 8 && s.coin() ? maxn - (size_t)s.below(8) : (size_t)s.below(maxn + 1);
     Bytes p(n);
     const uint8_t marks[6] = {a.start, a.stop, a.stub, a.c_start, a.c_stop, a.c_stub};
     int style = (int)s.below(3);
@@ -228,12 +236,12 @@ Bytes gen_payload(Src &s, const Alphabet &a, size_t maxn)
 void t_recv(Src &s, Case &c, Kind k)
 {
     const Alphabet &a = k == K_V1 ? kV1 : kV0;
-    size_t cap = (size_t)(s.coin() ? s.range(2, 12) : s.range(2, 48));
+    size_t cap = g_large ? (size_t)(s.coin() ? s.range(250, 262) : s.range(508, 516)) : (size_t)(s.coin() ? s.range(2, 12) : s.range(2, 48));
     const uint8_t marks[6] = {a.start, a.stop, a.stub, a.c_start, a.c_stop, a.c_stub};
     Bytes stream;
-    int nseg = (int)s.range(1, 8);
+    int nseg = (int)s.range(1, g_large ? 5 : 8);
     bool fault_or_noise = false, good_after = false, overlong = false;
-    for (int si = 0; si < nseg && stream.size() < 400; si++)
+    for (int si = 0; si < nseg && stream.size() < (g_large ? 3000u : 400u); si++)
     {
         switch (s.weighted({2, 2, 4, 3, 1, 1}))
         {
@@ -328,6 +336,19 @@ void t_recv(Src &s, Case &c, Kind k)
 }
 void t_recv_cfg(Src &s, Case &c) { t_recv(s, c, s.coin() ? K_V1 : K_V0); }
 void t_recv_legacy(Src &s, Case &c) { t_recv(s, c, K_LEGACY); }
+void t_recv_large(Src &s, Case &c)
+{
+    LargeMode lm;
+    switch (s.below(3))
+    {
+    case 0:
+        return t_recv(s, c, K_V1);
+    case 1:
+        return t_recv(s, c, K_V0);
+    default:
+        return t_recv(s, c, K_LEGACY);
+    }
+}
 
 // --------------------------------------------------------------- exhaustive
 // all streams of length <= L over 8 symbols {START, STOP|'b', STUB, 3 codes|..., 'a', crc-fixer}
@@ -428,6 +449,9 @@ void t_recv_enum(Src &s, Case &c)
 
 } // namespace
 
+VP_TARGET("recv_large", t_recv_large,
+          "all three receivers with capacity 250..262 / 508..516: 1..5 segments of the same kinds as recv_cfg, payload lengths up to capacity+3 and "
+          "concentrated within 8 bytes of it (frames that just fit / just do not fit a buffer longer than 255 bytes); same four predicates");
 VP_TARGET("recv_cfg", t_recv_cfg,
           "configurable receiver, both alphabets, capacity 2..48: stream <= 400 bytes built from noise (uniform / marker-heavy), "
           "well-formed frames (payload 0..cap+3, so some do not fit), back-to-back frames, frames with one fault (truncated, bit "
